@@ -69,6 +69,77 @@ def expected_sess(entries, offs, xml, with_pcs):
     return " # ".join(out)
 
 
+def coq_bytes(b):
+    return "[" + "; ".join(str(x) for x in b) + "]"
+
+
+def coq_type(t):
+    if t == "F":
+        return "TSingle"
+    if t == "D":
+        return "TDouble"
+    p = t.split("/")
+    return "(%s (%s) (%s))" % ("TInteger" if p[0] == "I" else "TScaled", p[1], p[2])
+
+
+def coq_value(v):
+    k, a = v[0], v[1:]
+    if k == "f":
+        return "VSingle %d" % int(a, 16)
+    if k == "d":
+        return "VDouble %d" % int(a, 16)
+    return "%s (%s)" % ("VScaled" if k == "s" else "VInteger", a)
+
+
+def crosscheck_extraction(rep, entries, xml, filehex):
+    """the same layout evaluated inside Coq by vm_compute must give the bytes the extracted encoder gave"""
+    import os, subprocess, tempfile
+    defs, fl = [], []
+    for k, e in enumerate(entries):
+        if e[0] == "X":
+            fl.append("FXml")
+        elif e[0] == "B":
+            fl.append("FBlob %s %d" % (coq_bytes(e[2]), e[1]))
+        else:
+            n = len(e[2])
+            defs.append("Definition proto%d : list dtype := [%s]." % (k, "; ".join(coq_type(t) for t in e[2])))
+            defs.append("Definition pts%d : list (list rvalue) := [%s]." % (k, "; ".join("[" + "; ".join(coq_value(v) for v in p) + "]" for p in e[3])))
+            for i in range(n):
+                defs.append("Definition s%d_%d := spec_stream_bytes (nth %d proto%d TSingle) (column %d pts%d)." % (k, i, i, k, i, k))
+            pos = [0] * n
+            pk = []
+            for p in e[4]:
+                if p[0] == "I":
+                    pk.append("SIndex %d" % p[1])
+                elif p[0] == "G":
+                    pk.append("SIgnored %d" % p[1])
+                else:
+                    ch = []
+                    for i, c in enumerate(p[1]):
+                        ch.append("slice %d %d s%d_%d" % (pos[i], c, k, i))
+                        pos[i] += c
+                    pk.append("SData [%s]" % "; ".join(ch))
+            fl.append("FPc proto%d pts%d [%s] %d" % (k, k, "; ".join(pk), e[1]))
+    text = ("From E57 Require Import Base.Prelude Model.Record Spec.BitSpec Spec.FormatSpec Spec.FileSpec.\nOpen Scope N_scope.\n"
+            + "\n".join(defs) + "\nDefinition fl : file_layout := [%s].\n" % "; ".join(fl)
+            + "Definition x : list N := %s.\nDefinition expected : list N := %s.\n" % (coq_bytes(xml), coq_bytes(bytes.fromhex(filehex)))
+            + "Eval vm_compute in (file_layout_ok fl, bytes_eqb (spec_encode_file fl x) expected).\n")
+    tmp = tempfile.mkdtemp(prefix="e57x_")
+    try:
+        path = os.path.join(tmp, "Cross.v")
+        open(path, "w").write(text)
+        rc, out, err = core.sh(["coqc", "-Q", os.path.join(core.COQ, "theories"), "E57", path], timeout=600)
+    finally:
+        import shutil
+        shutil.rmtree(tmp, ignore_errors=True)
+    if "(true, true)" not in out.replace("\n", " "):
+        rep.violation("extraction-mismatch", "spec_encode_file evaluated by vm_compute differs from the extracted OCaml code: %s" % (out + err)[-300:],
+                      dict(kind="extraction", coq=text[:4000]), no_input=True)
+        return False
+    return True
+
+
+
 def classify(exp, got):
     if got.startswith("CRASH") or got.startswith("open:P") or " P" in got or "new:P" in got or "end=P" in got:
         return "c03-panic"
@@ -127,9 +198,12 @@ def run(rep, tier, rng, replay=None):
                           dict(kind="spec-file", spec_line=line, xml=xml.hex(), offs=offs), no_input=True)
             continue
         if f["followed"] == "0":
-            # a compressed vector followed by nothing at all at the end of the last page: outside the family (see Proofs/SpecReader.v)
+            # a compressed vector followed by nothing at all at the end of the last page is outside the theorem
+            # (Proofs/SpecReader.v); the reader is still expected to read it unless the vector has no packet at all
+            # (then data_offset = end of file and the seek fails: reported finding, excluded here)
             stats["unfollowed"] += 1
-            continue
+            if entries is None or any(e[0] == "P" and not e[4] for e in entries):
+                continue
         stats["files"] += 1
         stats["bytes"] += int(f["len"])
         filehex = f["file"]
@@ -165,6 +239,15 @@ def run(rep, tier, rng, replay=None):
                         widths.add(gen.tok_width(t))
                         stats["zero_width_records"] += 1 if gen.tok_width(t) == 0 else 0
             rep.distinct(gen.fnv_hex(line.encode()))
+    # ---- extraction is checked, not trusted: a few small layouts evaluated inside Coq
+    n_cross = 0
+    if files is not None:
+        for m in meta:
+            entries = cases[m["i"]][0]
+            if n_cross < 3 and len(m["filehex"]) <= 2 * 3072 and any(e[0] == "P" and e[3] and len(e[4]) > 1 for e in entries):
+                crosscheck_extraction(rep, entries, m["xml"], m["filehex"])
+                n_cross += 1
+    rep.cov["layouts_cross_checked_by_vm_compute"] = n_cross
     # ---- direct leg: the real reader
     a_rd = core.run_cases(impl, rd_lines)
     a_rd_rel = core.run_cases(impl_rel, rd_lines)
